@@ -22,7 +22,14 @@ for f in $demo; do mv "$f" "$f.aside"; done
 go test -vet=off -count=1 ./... > "$out/suite.log" 2>&1; echo "suite exit: $?"; grep -E "^(FAIL|--- FAIL|panic)" "$out/suite.log" | head -10
 for f in $demo; do mv "$f.aside" "$f"; done
 echo "== check $prop $tier against the change in /repo"
+if [ "${SEED_EVAL_IN_WORKTREE:-0}" = 1 ]; then
+  # /repo is busy (a sweep is reading it): run the same check against the scratch worktree, which
+  # holds the same tree as /repo plus the change (VERIF_REPO redirects the engine and the replay)
+  cd /verif && VERIF_REPO="$wt" timeout 3000 ./check $prop $tier -noevidence > "$out/check_$tier.log" 2>&1; rc=$?
+  echo "(run with VERIF_REPO=$wt)" >> "$out/check_$tier.log"
+else
 cd /repo && git apply "$out/patch.diff" && cd /verif && timeout 3000 ./check $prop $tier -noevidence > "$out/check_$tier.log" 2>&1; rc=$?
+fi
 grep -v "KNOWN-FINDING\|^    at\|inputs=" "$out/check_$tier.log" | tail -12 | cut -c1-300; echo "check exit: $rc"
 git -C /repo checkout -- . ; git -C /repo status --short
 echo "$rc" > "$out/check_$tier.exit"
